@@ -199,7 +199,8 @@ def run(chk):
                 if slots <= 2:
                     tuples = list(itertools.product(UNI, repeat=slots))
                 else:
-                    n = 150 if quick else 2500
+                    # (rank (3,3): orbits of up to 72 members - fewer tuples)
+                    n = 150 if quick else 2500 if slots <= 4 else 500
                     tuples = [tuple(r.choice(UNI) for _ in range(slots))
                               for _ in range(n)]
                     # the interesting diagonal blocks: names differing only
